@@ -85,6 +85,7 @@ def _inline_site(caller, bi, callee):
         blk["stmts"].append({"k": "assign", "lhs": {"l": loff + 1 + i, "p": []}, "rv": {"k": "use", "a": a}, "sp": sp, "x": None, "inl": callee["path"]})
     dest, tgt, unw = call.get("dest"), call.get("t"), call.get("u")
     blk["term"] = {"k": "goto", "t": boff, "sp": sp, "x": None, "inl": callee["path"]}
+    ret_blocks = []
     for cb in callee["blocks"]:
         nb = {"cleanup": cb.get("cleanup", False), "stmts": [_shift(s, loff) for s in cb["stmts"]]}
         t = cb.get("term") or {"k": "none"}
@@ -93,6 +94,8 @@ def _inline_site(caller, bi, callee):
             if dest is not None:
                 nb["stmts"].append({"k": "assign", "lhs": dest, "rv": {"k": "use", "a": {"m": {"l": loff, "p": []}}}, "sp": t.get("sp") or sp, "x": None, "inl": callee["path"]})
             nb["term"] = {"k": "goto", "t": tgt, "sp": t.get("sp"), "x": None} if tgt is not None else {"k": "unreachable", "sp": t.get("sp"), "x": None}
+            if tgt is not None:
+                ret_blocks.append(nb)
         elif k == "resume" and unw is not None:
             nb["term"] = {"k": "goto", "t": unw, "sp": t.get("sp"), "x": None}
         else:
@@ -101,6 +104,92 @@ def _inline_site(caller, bi, callee):
             if extra in cb:
                 nb[extra] = cb[extra]
         caller["blocks"].append(nb)
+    # Keep the analysis path-sensitive across the return: `helper(..)?` in the caller tests the discriminant of the value
+    # a particular `return` of the helper just built.  If all returns jumped to one continuation block, that test would
+    # see a merge of Ok and Err (and every fact established before an early `return Err(..)` would be lost).  Give each
+    # return site its own copy of the continuation up to (and including) its first switch.
+    if tgt is not None:
+        heads = [caller["blocks"].index(nb) for nb in ret_blocks]
+        if len(heads) > 1:
+            # several return blocks: each gets its own copy of the continuation
+            chain = _switch_chain(caller, tgt)
+            if chain:
+                for h in heads[1:]:
+                    first = _clone_chain(caller, chain)
+                    caller["blocks"][h]["term"]["t"] = first
+        for h in heads:
+            # one return block reached from several `_0 = ..; goto ret` sites (how rustc lowers early returns)
+            preds = _preds(caller, h)
+            if len(preds) > 1:
+                chain = _switch_chain(caller, h)
+                if chain:
+                    for (pi, slot) in preds[1:]:
+                        first = _clone_chain(caller, chain)
+                        _retarget(caller["blocks"][pi]["term"], slot, first)
+
+
+def _preds(body, target):
+    """[(block index, slot)] of the normal-flow edges into `target`; slot names the terminator field holding it."""
+    out = []
+    for i, blk in enumerate(body["blocks"]):
+        if blk.get("cleanup"):
+            continue
+        t = blk.get("term") or {}
+        if t.get("k") in ("goto", "call", "drop", "assert") and t.get("t") == target:
+            out.append((i, "t"))
+        elif t.get("k") == "switch":
+            for n, x in enumerate(t.get("tgts", [])):
+                if x == target:
+                    out.append((i, ("tgts", n)))
+            if t.get("other") == target:
+                out.append((i, "other"))
+    return out
+
+
+def _retarget(term, slot, new):
+    if isinstance(slot, tuple):
+        term[slot[0]][slot[1]] = new
+    else:
+        term[slot] = new
+
+
+def _clone_chain(body, chain):
+    first = len(body["blocks"])
+    for n, ci in enumerate(chain):
+        cpy = copy.deepcopy(body["blocks"][ci])
+        tt = cpy["term"]
+        if n + 1 < len(chain) and tt.get("t") == chain[n + 1]:
+            tt["t"] = first + n + 1
+        body["blocks"].append(cpy)
+    return first
+
+
+PASS_THROUGH = ("std::ops::Try::branch", "std::convert::From::from", "std::convert::Into::into", "std::result::Result::<T, E>::is_ok",
+                "std::result::Result::<T, E>::is_err", "std::option::Option::<T>::is_some", "std::option::Option::<T>::is_none")
+
+
+def _switch_chain(body, start, limit=5):
+    """Blocks start, next, ... ending in the first `switch`, provided every block before it has a single normal
+    successor and only passes the value along (goto, or a call from PASS_THROUGH). None if there is no such chain."""
+    chain = []
+    cur = start
+    for _ in range(limit):
+        blk = body["blocks"][cur]
+        if blk.get("cleanup"):
+            return None
+        t = blk.get("term") or {}
+        chain.append(cur)
+        k = t.get("k")
+        if k == "switch":
+            return chain
+        if k == "goto" and isinstance(t.get("t"), int):
+            cur = t["t"]
+            continue
+        if k == "call" and isinstance(t.get("t"), int) and ((t.get("f") or {}).get("path") in PASS_THROUGH):
+            cur = t["t"]
+            continue
+        return None
+    return None
 
 
 def inline_fresh(j, fresh):
@@ -210,3 +299,110 @@ def _reparent_closures(j, old_parent, new_parent):
             b["parent"] = new_parent
             b["reparented_from"] = old_parent
     j["bodies"] = bodies
+
+
+# ---------------------------------------------------------------------------------------------------------------
+# Named booleans.  `let refuse = a || b; let other = c; if refuse || other { return Err(..) }` lowers to blocks that
+# assign a constant to a bool local, join, evaluate something else, and only then branch on the local.  A
+# path-insensitive analysis sees the join and forgets which way `a`/`b` went.  The paths are separated again by
+# giving every predecessor that has just assigned a *constant* to the tested local its own copy of the blocks between
+# the join and the branch, with the branch already decided.  The copied blocks may only contain side-effect free
+# calls.  This is a semantics-preserving restructuring of the control-flow graph.
+# ---------------------------------------------------------------------------------------------------------------
+import re as _re
+
+PURE_TAIL = _re.compile(r"::(contains|intersects|is_empty|bits|is_some|is_none|is_ok|is_err|eq|ne|as_bytes|deref|as_ref|len|is_absolute|"
+                        r"is_symlink|is_dir|is_file|is_negative|is_positive|mode|as_fd|as_raw_fd|borrow|as_os_str|as_path)$")
+
+
+def _bool_chain(body, start, limit=4):
+    chain = []
+    cur = start
+    for _ in range(limit):
+        blk = body["blocks"][cur]
+        if blk.get("cleanup"):
+            return None
+        t = blk.get("term") or {}
+        chain.append(cur)
+        k = t.get("k")
+        if k == "switch":
+            return chain if t.get("dty") == "bool" else None
+        if k == "goto" and isinstance(t.get("t"), int):
+            cur = t["t"]
+        elif k == "call" and isinstance(t.get("t"), int) and PURE_TAIL.search((t.get("f") or {}).get("path") or ""):
+            cur = t["t"]
+        else:
+            return None
+        if cur in chain:
+            return None
+    return None
+
+
+def _const_bool_at_end(blk, local):
+    """The constant assigned to `local` by the last assignment to it in the block (None if not a constant)."""
+    for s in reversed(blk["stmts"]):
+        if s.get("k") == "assign" and s["lhs"].get("l") == local and not s["lhs"].get("p"):
+            rv = s["rv"]
+            if rv.get("k") == "use" and "k" in rv["a"] and rv["a"]["k"].get("ty") == "bool":
+                return rv["a"]["k"].get("u")
+            return None
+    return None
+
+
+def _assigns(blk, local):
+    for s in blk["stmts"]:
+        if s.get("k") in ("assign", "setdiscr") and s.get("lhs", {}).get("l") == local:
+            return True
+    t = blk.get("term") or {}
+    return t.get("k") == "call" and (t.get("dest") or {}).get("l") == local
+
+
+def split_bool_merges(body, max_new=60):
+    n0 = len(body["blocks"])
+    added = 0
+    for j in range(n0):
+        if added > max_new:
+            break
+        blk = body["blocks"][j]
+        if blk.get("cleanup"):
+            continue
+        preds = _preds(body, j)
+        if len(preds) < 2:
+            continue
+        chain = _bool_chain(body, j)
+        if not chain:
+            continue
+        sw = body["blocks"][chain[-1]]["term"]
+        d = sw.get("d") or {}
+        pl = d.get("m") or d.get("c")
+        if not pl or pl.get("p"):
+            continue
+        L = pl["l"]
+        if any(_assigns(body["blocks"][c], L) for c in chain[:-1]) or any(
+                s.get("k") == "assign" and s["lhs"].get("l") == L for s in body["blocks"][chain[-1]]["stmts"]):
+            continue
+        # every block of the chain after the head must have the previous one as its only predecessor
+        if any(len(_preds(body, c)) != 1 for c in chain[1:]):
+            continue
+        deciding = []
+        for (pi, slot) in preds:
+            pb = body["blocks"][pi]
+            if (pb.get("term") or {}).get("k") != "goto":
+                continue
+            v = _const_bool_at_end(pb, L)
+            if v is not None:
+                deciding.append((pi, slot, v))
+        if not deciding or len(deciding) == len(preds) == 1:
+            continue
+        for (pi, slot, v) in deciding:
+            first = _clone_chain(body, chain)
+            last = body["blocks"][first + len(chain) - 1]
+            t = last["term"]
+            tgt = t["other"]
+            for val, tg in zip(t.get("vals", []), t.get("tgts", [])):
+                if val == v:
+                    tgt = tg
+            last["term"] = {"k": "goto", "t": tgt, "sp": t.get("sp"), "x": None, "decided": [L, v]}
+            _retarget(body["blocks"][pi]["term"], slot, first)
+            added += len(chain)
+    return added
